@@ -8,7 +8,7 @@
 import os
 import random
 
-from harness import tlc, sk, ledger_drv, indep
+from harness import tlc, sk, ledger_drv, indep, tracecheck
 from harness.common import Check, seed, machinery_failure
 from checks.ledger import judge
 
@@ -92,6 +92,50 @@ def run(pid, tier, replay=None):
     chk.extra["checkpoint_candidates_accepted"] = acc
     if acc < len(heights) - 1:
         chk.notes.append("fewer right-id candidates accepted than checkpointed heights: %d" % acc)
+
+    # (b1) the wire format at the real network's heights: a header's id is the hash of its encoding, and the height is a variable-length
+    #      quantity in it; what the code writes (and reads back) for a header at a checkpointed height / at every length boundary of the
+    #      quantity must be the network's format as specified in Wire.tla (validated against all recorded real blocks by C07)
+    from harness import indep as _indep
+    import io as _io
+    hs = set(heights) | {horizon_real, horizon_real + 1}
+    for k_ in range(0, 29, 7):
+        for d_ in (-2, -1, 0, 1, 2):
+            if 0 <= (1 << k_) + d_ < (1 << 28):          # Wire's decoder covers quantities below 2^28
+                hs.add((1 << k_) + d_)
+    for _ in range(100 if quick else 2000):
+        hs.add(rng.randrange(0, 2 * horizon_real))
+    fev = []
+    for h in sorted(hs):
+        summ = BlockSummary(h, bytes(32), bytes(range(32)), 1_600_000_000, b"\x00" * 3 + b"\xff" * 29, 7)
+        try:
+            bts = summ.serialize()
+            back = BlockSummary.deserialize(bts)
+            dec, re_eq = True, back.serialize() == bts and back.height == h
+        except Exception:
+            bts, dec, re_eq = b"", False, False
+        fev.append({"t": "BlockSummary", "b": list(bts), "kind": "netfmt", "dec": dec, "consumed": len(bts), "reenc_equal": re_eq, "id_equal": True,
+                    "roundtrip": True, "same_enc": True})
+        chk.case(("netfmt", h), nontrivial=True)
+    # every height up to 2^21 against the independent encoder (harness-side fact, reported through the same clause)
+    from skepticoin.serialization import stream_serialize_vlq
+    bad_h = []
+    for h in range(0, 1 << 21 if not quick else 200_000):
+        f_ = _io.BytesIO()
+        try:
+            stream_serialize_vlq(f_, h)
+        except Exception:
+            pass
+        if f_.getvalue() != _indep.vlq(h):
+            bad_h.append(h)
+    if bad_h:
+        chk.violation("C18:header_encoding_at_a_real_network_height_is_not_the_wire_format_of_the_network",
+                      {"heights_whose_encoding_differs": bad_h[:10], "count": len(bad_h)})
+    vv, rfm = tracecheck.run("TraceWire", fev, {"StrictVLQ": True, "Scaled": False}, ids=[1], workers=1, timeout=1200)
+    chk.states += rfm.distinct
+    chk.traces_validated += len(fev)
+    for (line, clause) in tlc.tagged(rfm, "FINDING"):
+        chk.violation(clause, {"height": sorted(hs)[line - 1], "bytes_hex": bytes(fev[line - 1]["b"]).hex()})
 
     # (b2) model-sized table (horizon 4, checkpoints at 0/2/4 of a harness chain): competing, otherwise fully valid blocks at every
     #      height, offered to nodes whose own head is anywhere from below the candidate to beyond the horizon
